@@ -1,3 +1,314 @@
+/-
+C13 — invalid privacy parameters are refused before anything is released.
+
+`DPL.Val.chainOf / checkAllBlocks / ctorBlocks` are the validation chains of the library as (test, exception) lists in
+evaluation order (re-extracted from /repo on every run and proved equal to these tables in
+`DPL/Generated/C13Chains.lean`); `Valid` states the documented ranges independently of the chains.  The theorems are
+universal over the value domain (`PyVal` with extended-rational numbers), by case analysis and order lemmas.
+-/
 import DPL.Model.Validation
+import DPL.Proofs.Validation
+
 namespace DPL.C13
+open DPL DPL.Val
+
+/-- every block that `_check_all` does not run has an empty chain, so "all blocks it runs accept" = "all blocks accept" -/
+theorem checkAll_blocks (m : Mech) (env : Env) :
+    (∀ b ∈ checkAllBlocks m, runChain env (chainOf m b) = .ok ()) ↔ ∀ b, runChain env (chainOf m b) = .ok () := by
+  constructor
+  · intro H b
+    cases m <;> cases b <;> first | (refine H _ ?_; decide) | rfl
+  · exact fun H b _ => H b
+
+/-- the constructor runs every parameter block (all but the tests on the value to randomise and on `n`) -/
+theorem ctor_blocks (m : Mech) (env : Env) :
+    (∀ b ∈ ctorBlocks m, runChain env (chainOf m b) = .ok ()) ↔
+      ∀ b, b ≠ .value → b ≠ .nLt1 → runChain env (chainOf m b) = .ok () := by
+  constructor
+  · intro H b h1 h2
+    cases m <;> cases b <;> first | exact absurd rfl h1 | exact absurd rfl h2 | (refine H _ ?_; decide) | rfl
+  · intro H b hb
+    apply H b <;> (intro hv; subst hv; revert hb; cases m <;> simp [ctorBlocks])
+
+/-- `Valid` is exactly "every parameter block accepts" -/
+theorem valid_iff_blocks (m : Mech) (env : Env) :
+    Valid m env ↔ ∀ b, b ≠ .value → b ≠ .nLt1 → runChain env (chainOf m b) = .ok () := by
+  unfold Valid
+  rw [← epsDelta_ok_iff, ← sens_ok_iff, ← bounds_ok_iff, ← other_ok_iff, ← structured_ok_iff]
+  constructor
+  · rintro ⟨h1, h2, h3, ⟨h4, h5, h6⟩, h7, h8⟩ b hv hn
+    cases b <;> first | assumption | exact absurd rfl hv | exact absurd rfl hn
+  · intro H
+    exact ⟨H _ (by decide) (by decide), H _ (by decide) (by decide), H _ (by decide) (by decide),
+      ⟨H _ (by decide) (by decide), H _ (by decide) (by decide), H _ (by decide) (by decide)⟩,
+      H _ (by decide) (by decide), H _ (by decide) (by decide)⟩
+
+/-- **`randomise` accepts exactly the documented ranges**: `_check_all` — the first statement of every `randomise`,
+whatever was assigned to the attributes after construction — returns iff the parameters are `Valid` (and the value to
+randomise passes its own tests) -/
+theorem randomise_ok_iff (m : Mech) (env : Env) :
+    randomiseCheck m env = .ok () ↔
+      Valid m env ∧ runChain env (chainOf m .value) = .ok () ∧ runChain env (chainOf m .nLt1) = .ok () := by
+  unfold randomiseCheck blocksChain
+  rw [runChain_flatMap_ok, checkAll_blocks, valid_iff_blocks]
+  constructor
+  · intro H; exact ⟨fun b _ _ => H b, H _, H _⟩
+  · rintro ⟨H, hv, hn⟩ b
+    by_cases h1 : b = .value
+    · subst h1; exact hv
+    · by_cases h2 : b = .nLt1
+      · subst h2; exact hn
+      · exact H b h1 h2
+
+/-- **the constructor accepts exactly the documented ranges** (on the arguments it passes to the checks: classes that
+do not expose `delta` / `epsilon` pass the constant 0) -/
+theorem construct_ok_iff (m : Mech) (env : Env) : construct m env = .ok () ↔ Valid m (ctorEnv m env) := by
+  unfold construct blocksChain
+  rw [runChain_flatMap_ok, ctor_blocks, valid_iff_blocks]
+
+/-- **C13 (mechanisms, at randomise time)**: for every mechanism class and every assignment of values of the value
+domain to its attributes, parameters outside the documented range make `randomise` raise before it draws anything -/
+theorem refuse_invalid (m : Mech) (env : Env) (h : ¬ Valid m env) : ∃ e, randomiseCheck m env = .error e := by
+  rcases runChain_ok_or_error env (blocksChain m (checkAllBlocks m)) with hok | herr
+  · exact absurd ((randomise_ok_iff m env).mp hok).1 h
+  · exact herr
+
+/-- **C13 (mechanisms, at construction)** -/
+theorem refuse_invalid_construct (m : Mech) (env : Env) (h : ¬ Valid m (ctorEnv m env)) :
+    ∃ e, construct m env = .error e := by
+  rcases runChain_ok_or_error (ctorEnv m env) (blocksChain m (ctorBlocks m)) with hok | herr
+  · exact absurd ((construct_ok_iff m env).mp hok) h
+  · exact herr
+
+/-! ### the property's own list of invalid parameters is outside `Valid` -/
+
+/-- epsilon that is not a number (None, a string, complex), NaN or negative -/
+def BadEpsilon (v : PyVal) : Prop := ∀ x, v.real? = some x → ¬ x.Nonneg
+
+/-- delta that is not a number or outside [0, 1] -/
+def BadDelta (v : PyVal) : Prop := ∀ y, v.real? = some y → ¬ y.In01
+
+theorem bad_epsilon_invalid (m : Mech) (env : Env) (h : BadEpsilon (env.v .epsilon)) : ¬ Valid m env := by
+  rintro ⟨⟨x, y, hx, -, nx, -⟩, -⟩; exact h x hx nx
+
+theorem bad_delta_invalid (m : Mech) (env : Env) (h : BadDelta (env.v .delta)) : ¬ Valid m env := by
+  rintro ⟨⟨x, y, -, hy, -, ny, -⟩, -⟩; exact h y hy ny
+
+theorem nan_is_bad_epsilon : BadEpsilon (.flt .nan) := by
+  intro x hx; cases hx; simp [Ext.Nonneg]
+
+theorem negative_is_bad_epsilon (q : Rat) (hq : q < 0) : BadEpsilon (.flt (.fin q)) := by
+  intro x hx; cases hx; simp only [Ext.Nonneg, not_le]; exact hq
+
+theorem nonnumeric_is_bad_epsilon :
+    BadEpsilon .none ∧ (∀ s, BadEpsilon (.str s)) ∧ ∀ r, BadEpsilon (.complex r) := by
+  refine ⟨?_, ?_, ?_⟩
+  · intro x hx; simp [PyVal.real?] at hx
+  · intro s x hx; simp [PyVal.real?] at hx
+  · intro r x hx; simp [PyVal.real?] at hx
+
+/-- NaN epsilon is refused by every class, at randomise time and (for the classes that take epsilon) at construction -/
+theorem nan_epsilon_refused (m : Mech) (env : Env) (h : env.v .epsilon = .flt .nan) :
+    ∃ e, randomiseCheck m env = .error e :=
+  refuse_invalid m env (bad_epsilon_invalid m env (h ▸ nan_is_bad_epsilon))
+
+theorem both_zero_invalid (m : Mech) (env : Env) (x y : Ext) (hx : (env.v .epsilon).real? = some x)
+    (hy : (env.v .delta).real? = some y) (zx : x.IsZero) (zy : y.IsZero) : ¬ Valid m env := by
+  rintro ⟨⟨x', y', hx', hy', -, -, hz, -⟩, -⟩
+  rw [hx] at hx'; rw [hy] at hy'; cases hx'; cases hy'
+  exact hz ⟨zx, zy⟩
+
+/-- negative, NaN or non-numeric sensitivity (every class that has one) -/
+theorem bad_sensitivity_invalid (m : Mech) (env : Env)
+    (hm : m ≠ .Binary ∧ m ≠ .ExponentialCategorical ∧ m ≠ .ExponentialHierarchical)
+    (h : ∀ x, (env.v .sensitivity).real? = some x → ¬ x.Nonneg) : ¬ Valid m env := by
+  rintro ⟨-, hs, -⟩
+  have key : realNonneg (env.v .sensitivity) → False := fun ⟨x, hx, nx⟩ => h x hx nx
+  cases m <;> first | exact key hs | exact key hs.2 | exact key hs.1 | simp at hm
+
+/-- lower bound above upper bound (every class with bounds) -/
+theorem lower_above_upper_invalid (m : Mech) (env : Env)
+    (hm : m = .LaplaceTruncated ∨ m = .LaplaceFolded ∨ m = .LaplaceBoundedDomain ∨ m = .Snapping ∨
+      m = .GeometricTruncated ∨ m = .GeometricFolded)
+    (l u : Ext) (hl : (env.v .lower).real? = some l) (hu : (env.v .upper).real? = some u) (h : l.Gt u) :
+    ¬ Valid m env := by
+  rintro ⟨-, -, hb, -⟩
+  have key : baseBoundsOk env → False := by
+    rintro ⟨l', u', hl', hu', hn⟩
+    rw [hl] at hl'; rw [hu] at hu'; cases hl'; cases hu'; exact hn h
+  rcases hm with rfl | rfl | rfl | rfl | rfl | rfl
+  · exact key hb
+  · exact key hb
+  · exact key hb
+  · exact key hb.1
+  · exact key hb.2.2
+  · exact key hb.2
+
+/-- delta ≠ 0 for a pure mechanism (incl. Binary and Snapping, also when set after construction) -/
+theorem pure_nonzero_delta_invalid (m : Mech) (env : Env)
+    (hm : m = .Binary ∨ m = .Bingham ∨ m = .Exponential ∨ m = .PermuteAndFlip ∨ m = .ExponentialCategorical ∨
+      m = .ExponentialHierarchical ∨ m = .Geometric ∨ m = .GeometricTruncated ∨ m = .GeometricFolded ∨
+      m = .Snapping ∨ m = .Staircase ∨ m = .Vector)
+    (h : ∀ y, (env.v .delta).real? = some y → ¬ y.IsZero) : ¬ Valid m env := by
+  rintro ⟨⟨x, y, -, hy, -, -, -, hc⟩, -⟩
+  rcases hm with rfl | rfl | rfl | rfl | rfl | rfl | rfl | rfl | rfl | rfl | rfl | rfl <;>
+    first | exact h y hy hc | exact h y hy hc.1
+
+/-- epsilon > 1 for the classical Gaussian -/
+theorem gaussian_epsilon_above_one_invalid (env : Env) (q : Rat) (h : env.v .epsilon = .flt (.fin q)) (hq : 1 < q) :
+    ¬ Valid .Gaussian env := by
+  rintro ⟨⟨x, y, hx, -, -, -, -, -, -, hl⟩, -⟩
+  rw [h] at hx; cases hx
+  simp only [Ext.LeOne] at hl; exact absurd hl (not_le.mpr hq)
+
+/-- delta ≥ 1/2 for the bounded-noise Laplace mechanism -/
+theorem boundedNoise_delta_half_invalid (env : Env) (q : Rat) (h : env.v .delta = .flt (.fin q)) (hq : 1 / 2 ≤ q) :
+    ¬ Valid .LaplaceBoundedNoise env := by
+  rintro ⟨⟨x, y, -, hy, -, -, -, -, -, hl⟩, -⟩
+  rw [h] at hy; cases hy
+  simp only [Ext.LtHalf] at hl; exact absurd hl (not_lt.mpr hq)
+
+/-- delta > 1/2 for the uniform mechanism -/
+theorem uniform_delta_above_half_invalid (env : Env) (q : Rat) (h : env.v .delta = .flt (.fin q)) (hq : 1 / 2 < q) :
+    ¬ Valid .Uniform env := by
+  rintro ⟨⟨x, y, -, hy, -, -, -, -, -, hl⟩, -⟩
+  rw [h] at hy; cases hy
+  simp only [Ext.LeHalf] at hl; exact absurd hl (not_le.mpr hq)
+
+/-! ### validation.py, Budget, the accountant, tools and estimators -/
+
+/-- `validation.check_epsilon_delta(epsilon, delta, allow_zero)` accepts exactly a budget in range -/
+theorem checkEpsilonDelta_ok_iff (az : Bool) (env : Env) :
+    runChain env (checkEpsilonDelta az) = .ok () ↔ ValidBudget az env := by
+  unfold checkEpsilonDelta ValidBudget
+  cases az
+  · simp only [Bool.false_eq_true, ↓reduceIte, List.cons_append, List.nil_append, forall_const]
+    have := baseEpsDelta_ok env
+    unfold baseEpsDelta BaseED at this
+    exact this
+  · simp only [↓reduceIte, List.append_nil, runChain_cons_ok, notRealEither_ok, notGe0_ok, notIn01_ok, runChain_nil,
+      and_true, Bool.true_eq_false, false_imp_iff, and_true]
+    constructor
+    · rintro ⟨⟨x, y, hx, hy⟩, ⟨x', hx', nx⟩, ⟨y', hy', ny⟩⟩
+      rw [hx] at hx'; rw [hy] at hy'; cases hx'; cases hy'
+      exact ⟨x, y, hx, hy, nx, ny⟩
+    · rintro ⟨x, y, hx, hy, nx, ny⟩
+      exact ⟨⟨x, y, hx, hy⟩, ⟨x, hx, nx⟩, ⟨y, hy, ny⟩⟩
+
+/-- `Budget(epsilon, delta)` -/
+theorem budgetNew_ok_iff (env : Env) :
+    runChain env budgetNew = .ok () ↔
+      ∃ x y, (env.v .epsilon).real? = some x ∧ (env.v .delta).real? = some y ∧ x.Nonneg ∧ y.In01 := by
+  unfold budgetNew
+  simp only [runChain_cons_ok, notGe0_ok, notIn01_ok, runChain_nil, and_true]
+  constructor
+  · rintro ⟨⟨x, hx, nx⟩, ⟨y, hy, ny⟩⟩; exact ⟨x, y, hx, hy, nx, ny⟩
+  · rintro ⟨x, y, hx, hy, nx, ny⟩; exact ⟨⟨x, hx, nx⟩, ⟨y, hy, ny⟩⟩
+
+theorem check_ok_valid (a : AccV) (env : Env) (h : a.check env = .ok ()) : ValidBudget false env := by
+  unfold AccV.check at h
+  simp only [bind, Except.bind] at h
+  rw [← checkEpsilonDelta_ok_iff]
+  cases hc : runChain env (checkEpsilonDelta false) with
+  | ok u => rfl
+  | error e => rw [hc] at h; cases h
+
+/-- **C13 (accountant)**: `check` and `spend` refuse an invalid budget (ValueError / TypeError), whatever the state of
+the accountant, and a refused `spend` returns no new state: nothing is recorded -/
+theorem accountant_refuses (a : AccV) (env : Env) (h : ¬ ValidBudget false env) :
+    (∃ e, a.check env = .error e) ∧ (∃ e, a.spend env = .error e) := by
+  have hc : ∃ e, a.check env = .error e := by
+    cases hk : a.check env with
+    | ok u => exact absurd (check_ok_valid a env hk) h
+    | error e => exact ⟨e, rfl⟩
+  refine ⟨hc, ?_⟩
+  obtain ⟨e, he⟩ := hc
+  exact ⟨e, by simp [AccV.spend, he, bind, Except.bind]⟩
+
+/-- an accepted spend appends exactly the pair that was checked -/
+theorem spend_ok_appends (a a' : AccV) (env : Env) (h : a.spend env = .ok a') :
+    a.check env = .ok () ∧ ∃ e d, a'.spent = a.spent ++ [(e, d)] ∧ a'.ceilEps = a.ceilEps ∧ a'.ceilDelta = a.ceilDelta := by
+  unfold AccV.spend at h
+  simp only [bind, Except.bind, pure, Except.pure] at h
+  cases hc : a.check env with
+  | error e => rw [hc] at h; cases h
+  | ok u =>
+    rw [hc] at h
+    refine ⟨rfl, ?_⟩
+    cases he : needReal (env.v .epsilon) with
+    | error e => simp [he] at h
+    | ok e =>
+      cases hd : needReal (env.v .delta) with
+      | error e => simp [he, hd] at h
+      | ok d =>
+        simp only [he, hd, Except.ok.injEq] at h
+        subst h
+        exact ⟨e, d, rfl, rfl, rfl⟩
+
+/-- **C13 (tools and estimators)**: their first privacy-relevant statements are `check_bounds` and
+`accountant.check(epsilon, 0)`; an epsilon that is not a number, NaN, negative or zero never gets past them -/
+theorem tool_refuses (a : AccV) (bounds : Option (PyVal × PyVal)) (env : Env)
+    (h : ∀ x, (env.v .epsilon).real? = some x → ¬ x.Pos) : ∃ e, toolEntry a bounds env = .error e := by
+  cases hk : toolEntry a bounds env with
+  | error e => exact ⟨e, rfl⟩
+  | ok u =>
+    exfalso
+    unfold toolEntry at hk
+    simp only [bind, Except.bind, pure, Except.pure] at hk
+    have hc : ∃ env', env'.v .epsilon = env.v .epsilon ∧ env'.v .delta = .int 0 ∧ a.check env' = .ok () := by
+      refine ⟨{ env with v := fun x => if x = .delta then .int 0 else env.v x }, by simp, by simp, ?_⟩
+      cases bounds with
+      | none => simpa using hk
+      | some b =>
+        cases hb : checkBounds b.1 b.2 with
+        | error e => simp [hb] at hk
+        | ok p => simpa [hb] using hk
+    obtain ⟨env', he, hd, hok⟩ := hc
+    obtain ⟨x, y, hx, hy, nx, -, hz⟩ := check_ok_valid a env' hok
+    rw [he] at hx
+    rw [hd] at hy; cases hy
+    apply h x hx
+    cases x <;> simp_all [Ext.Pos, Ext.Nonneg, Ext.IsZero]
+    rename_i q
+    exact lt_of_le_of_ne nx (Ne.symm hz)
+
+/-- `check_bounds((lower, upper))` refuses a lower bound above the upper bound -/
+theorem checkBounds_refuses (lower upper : PyVal) (l u : Ext) (hl : asFloat lower = .ok l) (hu : asFloat upper = .ok u)
+    (h : l.Gt u) : checkBounds lower upper = .error .valueError := by
+  have : Ext.lt u l = true := by
+    cases hlt : Ext.lt u l with
+    | true => rfl
+    | false => exact absurd h ((lt_false_iff_not_gt l u).mp hlt)
+  simp [checkBounds, hl, hu, this, bind, Except.bind, throw, throwThe, MonadExceptOf.throw]
+
+/-! ### non-vacuity and regression witnesses -/
+
+/-- a valid Laplace parameter set is constructed -/
+example : construct .Laplace (.ofList [(.epsilon, .flt (.fin (1/2))), (.delta, .flt (.fin 0))]) = .ok () := by
+  decide +kernel
+
+/-- … and so is a truncated geometric mechanism with an infinite upper bound, which then randomises an integer -/
+example : randomiseCheck .GeometricTruncated (.ofList [(.epsilon, .int 1), (.delta, .flt (.fin 0)), (.lower, .int 0),
+    (.upper, .flt .posInf), (.value, .int 3)]) = .ok () := by decide +kernel
+
+/-- NaN epsilon: refused at construction -/
+example : construct .Laplace (.ofList [(.epsilon, .flt .nan), (.delta, .flt (.fin 0))]) = .error .valueError := by
+  decide +kernel
+
+/-- delta = 1/2 assigned to a Binary mechanism after construction: refused at randomise -/
+example : randomiseCheck .Binary (.ofList [(.epsilon, .flt (.fin 1)), (.delta, .flt (.fin (1/2)))]) =
+    .error .valueError := by decide +kernel
+
+/-- regression witness for the repaired defect 5b4c2f9: the OLD chain (`epsilon < 0`, `epsilon + delta == 0`) lets a
+NaN epsilon through, because every comparison with NaN is False -/
+theorem old_chain_accepts_nan : oldBaseAccepts .nan (.fin 0) = true := by decide
+
+/-- … while the chain at HEAD (`not epsilon >= 0`) refuses it for every delta -/
+theorem new_chain_refuses_nan (env : Env) (h : env.v .epsilon = .flt .nan) :
+    ∃ e, runChain env baseEpsDelta = .error e := by
+  rcases runChain_ok_or_error env baseEpsDelta with hok | herr
+  · obtain ⟨x, y, hx, -, nx, -⟩ := (baseEpsDelta_ok env).mp hok
+    rw [h] at hx; cases hx; simp [Ext.Nonneg] at nx
+  · exact herr
+
 end DPL.C13
